@@ -49,6 +49,22 @@ Theorem C05_sessions_exact : forall me evs,
   forall q, In q (bs_peers (brun me evs)) -> (ps_sess q <> None <-> should_run (last_labels me evs) (ps_cfg q) = true).
 Proof. exact sessions_exact. Qed.
 
+(* session (re)creation: after any event list, every configured peer selected for this node has exactly
+   one session and it was created from the peer's CURRENT configuration (every field, incl. the secret
+   reference: SetConfig keeps a running session only when the whole peer configuration is unchanged);
+   a peer not selected has none *)
+Theorem C05_selected_peer_has_one_current_session : forall me evs c,
+  NoDup (map pc_name (last_cfg evs)) -> In c (last_cfg evs) ->
+  exists q, In q (bs_peers (brun me evs)) /\ ps_cfg q = c /\
+            (forall q', In q' (bs_peers (brun me evs)) -> pc_name (ps_cfg q') = pc_name c -> q' = q) /\
+            (should_run (last_labels me evs) c = true -> ps_sess q <> None /\ ps_made q = Some c) /\
+            (should_run (last_labels me evs) c = false -> ps_sess q = None).
+Proof. exact selected_peer_has_one_current_session. Qed.
+
+Theorem C05_live_session_made_from_current_config : forall me evs q,
+  In q (bs_peers (brun me evs)) -> ps_sess q <> None -> ps_made q = Some (ps_cfg q).
+Proof. exact made_run. Qed.
+
 (* a Service is reported as advertised to exactly the peers that are offered one of its prefixes *)
 Theorem C05_peers_for_service_exact : forall me evs svc p,
   In p (bs_active (brun me evs) svc) <->
@@ -76,7 +92,7 @@ Proof. exact aggregate_inside_cidr. Qed.
 Definition C05_ex_adv : badv :=
   {| ba_agg4 := 24; ba_agg6 := 128; ba_lp := 100; ba_comms := [1]; ba_nodes := [0]; ba_peers := [1] |}.
 Definition C05_ex_hist : list bev :=
-  [ BCfg [ {| pc_name := 1; pc_sels := []; pc_attr := 0 |}; {| pc_name := 2; pc_sels := []; pc_attr := 0 |} ];
+  [ BCfg [ {| pc_name := 1; pc_sels := []; pc_attr := 0; pc_ref := 0 |}; {| pc_name := 2; pc_sels := []; pc_attr := 0; pc_ref := 0 |} ];
     BSet 0 [V4 169090561] [C05_ex_adv]; BSet 1 [V4 169090562] [C05_ex_adv] ].
 Example C05_nonvacuous :
   option_map (@length adv) (sess_of (brun 0 C05_ex_hist) 1) = Some 2%nat /\
@@ -85,3 +101,8 @@ Example C05_nonvacuous :
   option_map (@length adv) (sess_of (brun 0 (C05_ex_hist ++ [BDel 0])) 1) = Some 1%nat /\
   sess_of (brun 0 (C05_ex_hist ++ [BDel 0; BDel 1])) 1 = Some [].
 Proof. vm_compute. repeat split. Qed.
+
+Example C05_nonvacuous_secret_reference :
+  let p r := {| pc_name := 1; pc_sels := []; pc_attr := 0; pc_ref := r |} in
+  option_map ps_made (find (fun q => pc_name (ps_cfg q) =? 1) (bs_peers (brun 0 [BCfg [p 1]; BCfg [p 2]]))) = Some (Some (p 2)).
+Proof. vm_compute. reflexivity. Qed.
